@@ -7,7 +7,7 @@ Medias == {[base |-> b, variant |-> v] : b \in Documented, v \in {"plain", "char
           \cup {[base |-> b, variant |-> "plain"] : b \in {"application/jsonx", "application/json-rpc2", "text/json", "text/plain",
                                                         "application/vnd.api+json", "application/x-www-form-urlencoded", "missing", "json", "application/jsonrequests"}}
           \cup {[base |-> "text/plain", variant |-> "charset"]}
-Bodies == {"call_ok", "call_err", "notif", "batch_ok", "batch_mixed", "batch_notif", "unknown", "invalid", "notjson", "non_utf8"}
+Bodies == {"call_ok", "call_err", "notif", "batch_ok", "batch_mixed", "batch_notif", "unknown", "badparams", "invalid", "notjson", "non_utf8"}
 \* a third endpoint ("zzz": in aiohttp it is served by a sub-application of its own) over a reduced media alphabet
 MediasSmall == {[base |-> "application/json", variant |-> "plain"], [base |-> "application/json-rpc", variant |-> "charset"],
                 [base |-> "text/plain", variant |-> "plain"], [base |-> "missing", variant |-> "plain"], [base |-> "application/jsonx", variant |-> "plain"]}
